@@ -40,9 +40,8 @@ func solverCmd(name string, timeoutMs int) solverSpec {
 	panic("unknown solver " + name)
 }
 
-func (x *Exec) buildQuery(prelude string, o *Obligation) string {
+func (x *Exec) buildQuery(pr *Pruner, o *Obligation) string {
 	var sb strings.Builder
-	sb.WriteString(prelude)
 	for _, r := range o.Reveal {
 		sb.WriteString(x.reg.RevealAxiom(r))
 	}
@@ -58,7 +57,8 @@ func (x *Exec) buildQuery(prelude string, o *Obligation) string {
 	sb.WriteString("(assert (not ")
 	sb.WriteString(o.Goal)
 	sb.WriteString("))\n(check-sat)\n")
-	return sb.String()
+	body := sb.String()
+	return pr.Prune(body) + body
 }
 
 func runSolver(ctx context.Context, s solverSpec, query string, hardMs int) (status string, out string, ms int64) {
@@ -109,7 +109,7 @@ type SolveOpts struct {
 
 // solveAll discharges every obligation; cover obligations are expected NOT to be unsat.
 func (x *Exec) solveAll(obls []*Obligation, opts SolveOpts) []*CheckResult {
-	prelude := "(set-option :produce-models false)\n" + x.reg.Prelude()
+	prelude := NewPruner("(set-option :produce-models false)\n" + x.reg.Prelude())
 	results := make([]*CheckResult, len(obls))
 	type job struct{ i int }
 	jobs := make(chan job)
